@@ -240,3 +240,63 @@ def _extra_remove_ports_from(lv):
 
 
 removal_set_loop('Definition.remove_ports_from', 0, '_definition', 'par:_ports', extra=_extra_remove_ports_from, extra_mods=OPIN_DELETE_MODS)
+
+
+# ------------------------------------------------------------------------------------------------ Wire.disconnect_pins_from
+def _stored_of(lv, hp, p):
+    """the real pin a (possibly look-alike) pin object stands for"""
+    c = lv.ctx
+    return If(c.cls(p) == c.C['OuterPin'], hp['ovals'][hp['_instance'][p]][hp['_inner_pin'][p]], p)
+
+
+def _can_disconnect(lv, hp, p, w):
+    c = lv.ctx
+    inst, q = hp['_instance'][p], hp['_inner_pin'][p]
+    return If(c.cls(p) == c.C['OuterPin'],
+              And(c.cls(inst) == c.C['Instance'], q != c.null, hp['okeys'][inst][q], hp['_wire'][hp['ovals'][inst][q]] == w),
+              And(c.cls(p) == c.C['InnerPin'], hp['_wire'][p] == w))
+
+
+@loop_spec('Wire.disconnect_pins_from', 0, 'set', [], {'all_pins_can_be_disconnected': 'bool'})
+def _inv_disc_check(lv):
+    c = lv.ctx; self_ = lv.env['self'][1]
+    flag = local(lv, 'all_pins_can_be_disconnected')[1]
+    return [('C14', 'flag', flag),
+            ('C14', 'checked', c.forall(['p'], lambda p: Implies(lv.seen[p], _can_disconnect(lv, lv.h, p, self_)), lambda p: lv.seen[p]))]
+
+
+@loop_spec('Wire.disconnect_pins_from', 1, 'set', ['_wire', 't:wire', 'l:wire'])
+def _inv_disc_do(lv):
+    c = lv.ctx; h = lv.h; hl = lv.hl; self_ = lv.env['self'][1]
+    E = lv.se.emem(lv.st, lv.D)
+    S = lambda p: _stored_of(lv, hl, p)
+    return [
+        ('C01', 'only-excluded-cleared', c.forall(['x'], lambda x: Or(h['_wire'][x] == hl['_wire'][x], And(h['_wire'][x] == c.null, E[x])),
+                                                  lambda x: h['_wire'][x])),
+        ('C01', 'visited-cleared', c.forall(['p'], lambda p: Implies(lv.seen[p], And(h['_wire'][p] == c.null, h['_wire'][S(p)] == c.null,
+                                            h['t:wire'][S(p)], h['l:wire'][S(p)] == c.null)), lambda p: lv.seen[p])),
+        ('C19', 'ghost', c.forall(['x'], lambda x: Or(And(h['t:wire'][x] == hl['t:wire'][x], h['l:wire'][x] == hl['l:wire'][x]),
+                                                      And(h['t:wire'][x], h['l:wire'][x] == c.null, h['_wire'][x] == c.null)),
+                                  lambda x: [h['t:wire'][x], h['l:wire'][x]])),
+    ]
+
+
+# ------------------------------------------------------------------------------------------------ Instance.reference =
+@loop_spec('Instance.reference=', 0, 'opins', OPIN_DELETE_MODS)
+def _inv_ref_none(lv):
+    self_ = lv.env['self'][1]
+    return opins_deleted(lv, lambda i, q: And(i == self_, lv.seen[q]), lv.hl, keys_deleted=False)
+
+
+@loop_spec('Instance.reference=', 3, 'list', OPIN_CREATE_MODS)
+def _inv_ref_new_outer(lv):
+    c = lv.ctx; self_ = lv.env['self'][1]; hl = lv.hl
+    return opins_created(lv, lambda i, q: And(i == self_, hl['alloc'][q], c.cls(q) == c.C['InnerPin'], hl['_port'][q] != c.null,
+                                              lv.seen[hl['_port'][q]]), hl)
+
+
+@loop_spec('Instance.reference=', 4, 'list', OPIN_CREATE_MODS)
+def _inv_ref_new_inner(lv):
+    c = lv.ctx; self_ = lv.env['self'][1]; o = lv.outer; base = o.hl
+    return opins_created(lv, lambda i, q: And(i == self_, base['alloc'][q], c.cls(q) == c.C['InnerPin'], base['_port'][q] != c.null,
+                                              Or(o.seen[base['_port'][q]], And(base['_port'][q] == o.it, lv.seen[q]))), base)
